@@ -1931,13 +1931,30 @@ func (node OnDup) walkSubtree(visit Visit) error {
 	return Walk(visit, UpdateExprs(node))
 }
 
+// writeQuotedIdentifier prints an identifier inside the quotes it was written in and escapes
+// what the tokenizer unescaped, so that the printed text scans back to the same name.
+// A name in the dialect's identifier quotes is scanned by scanLiteralIdentifier, which only
+// knows the doubled quote. A name in string quotes (a column alias like 'x', or "x" in MySQL
+// without ANSI_QUOTES) is scanned as a string literal, where backslash escapes apply as well.
+func writeQuotedIdentifier(dialect dialect.Dialect, buf *TrackedBuffer, value string, quote byte) {
+	buf.WriteByte(quote)
+	if dialect.QuoteHandler().IsIdentifierQuote(quote) {
+		for i := 0; i < len(value); i++ {
+			buf.WriteByte(value[i])
+			if value[i] == quote {
+				buf.WriteByte(quote)
+			}
+		}
+	} else {
+		buf.Write(sqltypes.EncodeBytesSQLWithoutQuotes([]byte(value)))
+	}
+	buf.WriteByte(quote)
+}
+
 // FormatForDialect formats the node for specified dialect
 func (node ColIdent) FormatForDialect(dialect dialect.Dialect, buf *TrackedBuffer) {
 	if node.quote != 0 {
-		// print as is in quotes
-		buf.WriteByte(node.quote)
-		buf.Write([]byte(node.val))
-		buf.WriteByte(node.quote)
+		writeQuotedIdentifier(dialect, buf, node.val, node.quote)
 	} else if node.unquote {
 		buf.Write([]byte(node.val))
 	} else {
@@ -1957,10 +1974,7 @@ func (node ColIdent) walkSubtree(visit Visit) error {
 // FormatForDialect formats the node for specified dialect
 func (node TableIdent) FormatForDialect(dialect dialect.Dialect, buf *TrackedBuffer) {
 	if node.quote != 0 {
-		// print as is in quotes
-		buf.WriteByte(node.quote)
-		buf.Write([]byte(node.v))
-		buf.WriteByte(node.quote)
+		writeQuotedIdentifier(dialect, buf, node.v, node.quote)
 	} else {
 		formatIDForDialect(dialect, buf, node.v, strings.ToLower(node.v))
 	}
@@ -1969,10 +1983,7 @@ func (node TableIdent) FormatForDialect(dialect dialect.Dialect, buf *TrackedBuf
 // Format formats the node.
 func (node TableIdent) Format(buf *TrackedBuffer) {
 	if node.quote != 0 {
-		// print as is in quotes
-		buf.WriteByte(node.quote)
-		buf.Write([]byte(node.v))
-		buf.WriteByte(node.quote)
+		writeQuotedIdentifier(defaultDialect, buf, node.v, node.quote)
 	} else {
 		formatID(buf, node.v, strings.ToLower(node.v))
 	}
